@@ -194,6 +194,7 @@ class Env(object):
         db.bind('sqlite', ':memory:', factory=Conn)
         db.generate_mapping(create_tables=True)
         self.db = db; self.E = E
+        E.__qualname__ = 'C28Entity'; setattr(sys.modules[E.__module__], 'C28Entity', E)      # picklable by reference
         self.akind = {'data': None, 'vdata': None, 'odata': None, 'ldata': None,
                       'arr': 'iarr', 'varr': 'iarr', 'larr': 'iarr', 'sarr': 'sarr', 'vsarr': 'sarr'}
         self.volatile = {'vdata', 'varr', 'vsarr'}
@@ -615,7 +616,7 @@ def execute(env, attr, init, prog, created=False, source=None):
                     if res.model_valid:
                         res.model_ops.append({'t': 'rollback'}); res.snaps.append((len(res.model_ops) - 1, snap(None, True), idx))
                 continue
-            if st.get('dead') and o in ('flush', 'commit', 'reload', 'other', 'assign', 'readattr'):
+            if st.get('dead') and o in ('flush', 'commit', 'query', 'reload', 'other', 'assign', 'readattr'):
                 if o in ('assign', 'other'):
                     # `__set__` raises before anything happens
                     try:
@@ -676,12 +677,13 @@ def execute(env, attr, init, prog, created=False, source=None):
                         res.snaps.append((len(res.model_ops) - 1, snap(None), idx))
                 others_clean(idx)
                 continue
-            if o in ('flush', 'commit'):
+            if o in ('flush', 'commit', 'query'):
                 nupd = len(env.updates()); was_dirty = dirty() or st['e']._status_ in ('modified', 'created')
                 saved = st['e']._status_ in ('modified', 'created')
                 insess = canon(rootval()) if not op.get('quiet') else canon(st['mirror'])
                 try:
                     if o == 'flush': flush()
+                    elif o == 'query': E.select().first()        # any query: Pony saves the pending changes first
                     else: commit()
                 except Exception as ex:
                     # the save itself failed: what the session saw is not written
@@ -700,7 +702,7 @@ def execute(env, attr, init, prog, created=False, source=None):
                 check_persisted(idx, o)
                 if o == 'commit': st['committed'] = canon(rootval())
                 if res.model_valid:
-                    res.model_ops.append({'t': 'flush' if o == 'flush' else 'commit'})
+                    res.model_ops.append({'t': 'commit' if o == 'commit' else 'flush'})
                 if attr in env.volatile and saved:
                     # `_update_dbvals_` dropped the volatile value; the look above has read it again: wrappers taken before are
                     # no longer part of the value (mirror: a fresh copy; the old mirror objects stay with their variables)
@@ -900,7 +902,7 @@ def random_program(env, rng, attr, nops, danger, created=False):
     stale = set()          # volatile attribute: variables bound before the last save no longer refer into the value
     def source(root, mvars):
         ops = source1(root, mvars)
-        if ops and attr in env.volatile and any(o['op'] in ('flush', 'commit') for o in ops): stale.update(mvars)
+        if ops and attr in env.volatile and any(o['op'] in ('flush', 'commit', 'query') for o in ops): stale.update(mvars)
         if ops and any(o['op'] == 'reload' for o in ops): stale.clear()
         return ops
     def source1(root, mvars):
@@ -923,7 +925,7 @@ def random_program(env, rng, attr, nops, danger, created=False):
                 op['var'] = var
                 return pre + [op]
             if r < 0.10 or not conts:
-                o = rng.choice(['flush', 'flush', 'commit', 'reload', 'assign', 'assign', 'readattr', 'other', 'other'])
+                o = rng.choice(['flush', 'flush', 'commit', 'query', 'reload', 'assign', 'assign', 'readattr', 'other', 'other'])
                 if rng.random() < 0.12 and left[0] < nops - 1:
                     o = rng.choice(['end', 'end', 'delete', 'rollback'])
                     if not (o == 'rollback' and created):
@@ -1016,7 +1018,7 @@ def report_result(ctx, env, attr, init, prog, res, facts, created=False, label='
         small = shrink(env, attr, init, prog, created)
         r2 = execute(env, attr, init, small, created)
         loss = (r2.losses or res.losses)[0]
-        stale = attr in env.volatile and any(o['op'] in ('flush', 'commit') for o in small) and (loss['kind'] == 'raised' or any(o.get('quiet') for o in small))
+        stale = attr in env.volatile and any(o['op'] in ('flush', 'commit', 'query') for o in small) and (loss['kind'] == 'raised' or any(o.get('quiet') for o in small))
         key = KEY_VOLSTALE if stale else (KEY_PARTIAL if r2.partial else classify(small, facts['iterUnwrapped']))
         ctx.violation(WHAT.get(key, 'a change made in place to a Json/array value is missing after the commit'),
                       {'attr': attr, 'init': init, 'program': small, 'created_in_same_session': created, 'found_by': label},
@@ -1231,6 +1233,19 @@ def witness_programs():
         out.append(('array: assign(tuple / scalar / bad item)', aattr, [1, 2] if aattr == 'arr' else ['a'], [{'op': 'assign', 'v': {'$t': [vv, vv]}}, {'op': 'flush'},
                     {'op': 'take', 'var': 'y', 'path': []}, {'op': 'call', 't': 'lmut', 'n': 'append', 'var': 'y', 'v': vv}, {'op': 'assign', 'v': vv}, {'op': 'assign', 'v': [vv, None]},
                     {'op': 'take', 'var': 'y2', 'path': []}, {'op': 'call', 't': 'lmut', 'n': 'append', 'var': 'y2', 'v': vv}], False))
+    # the SAME container instance changed -> saved (flush / commit / a query) -> changed again -> end of session; also a new object
+    # changed before and after its INSERT
+    for save in ('flush', 'commit', 'query'):
+        for nm, attr_, init_, path_, c1, c2 in (
+                ('top-level dict', 'data', DOC, [], {'t': 'dmut', 'n': 'setitem', 'key': 'k1', 'v': 1}, {'t': 'dmut', 'n': 'setitem', 'key': 'k2', 'v': 2}),
+                ('top-level list', 'data', [1, [2]], [], {'t': 'lmut', 'n': 'append', 'v': 3}, {'t': 'lmut', 'n': 'append', 'v': 4}),
+                ('nested list', 'data', DOC, ['l', 1, 1], {'t': 'lmut', 'n': 'append', 'v': 3}, {'t': 'lmut', 'n': 'iadd', 'k': 'list', 'vs': [4]}),
+                ('nested dict', 'data', DOC, ['d', 'p'], {'t': 'dmut', 'n': 'update', 'k': 'dict', 'ps': [['a', 1]], 'kw': []}, {'t': 'dmut', 'n': 'delitem', 'key': 'k'}),
+                ('int array', 'arr', [1, 2], [], {'t': 'lmut', 'n': 'append', 'v': 3}, {'t': 'lmut', 'n': 'imul', 'c': 2}),
+                ('str array', 'sarr', ['a'], [], {'t': 'lmut', 'n': 'append', 'v': 'b'}, {'t': 'lmut', 'n': 'reverse'})):
+            for created_ in (False, True):
+                out.append(('same %s changed, %s, changed again%s' % (nm, save, ' (new object)' if created_ else ''), attr_, init_,
+                            [{'op': 'take', 'var': 'x', 'path': path_}, dict(c1, op='call', var='x'), {'op': save}, dict(c2, op='call', var='x')], created_))
     # wrappers that outlive their object's session / a deleted object / a rollback: the call changes the value in memory and raises,
     # the database keeps what was committed
     ap9 = {'op': 'call', 't': 'lmut', 'n': 'append', 'var': 'y', 'v': 9}
@@ -1356,6 +1371,32 @@ def read_sweep(ctx, env):
 
 # ---------------------------------------------------------------------------------------------------------------------
 
+KEY_PICKLE = 'C28:unpickled-object-values-not-tracked'
+
+def pickle_witness(ctx, env):
+    """an entity that went through pickle: are its Json / array values wrappers again, is an in-place change written?
+    (Entity.__reduce__ pickles the values as plain dict / list; unpickle_entity -> _db_set_(unpickling=True))"""
+    E = env.E
+    with db_session:
+        e = E(**copy.deepcopy(env.others)); commit(); pk = e.id
+    with db_session:
+        blob = pickle.dumps(E[pk])
+    with db_session:
+        e = pickle.loads(blob)
+        e.data['l'].append(5); e.arr.append(9)
+        expected = [canon(e.data), canon(e.arr)]
+    with db_session:
+        got = [canon(E[pk].data), canon(E[pk].arr)]
+    ctx.case(['pickle round trip, then changes in place'], kind='oracle:pickle')
+    if got != expected:
+        ctx.violation('after pickle.loads the Json / array values of an entity are plain dict / list (Entity.__reduce__ pickles the untracked values, '
+                      '_db_set_(unpickling=True) must wrap them again): in-place changes made to them are not written at commit',
+                      {'program': "blob = pickle.dumps(E[pk]); e = pickle.loads(blob); e.data['l'].append(5); e.arr.append(9); commit"},
+                      observed=got, expected=expected, key=KEY_PICKLE)
+        ctx.count('pickle round trip: in-place change lost')
+    else:
+        ctx.count('pickle round trip: in-place change written')
+
 def run_fixed(ctx, env, facts, progs, label):
     batch = []
     for name, attr, init, prog, created in progs:
@@ -1374,6 +1415,7 @@ def run(ctx):
     FACTS.clear(); FACTS.update(facts)
     env = Env()
     read_sweep(ctx, env)
+    pickle_witness(ctx, env)
     run_fixed(ctx, env, facts, witness_programs(), 'witness')
     run_fixed(ctx, env, facts, sweep_programs(), 'sweep')
     if tables is not None:
